@@ -30,7 +30,10 @@ MANIFEST = dict(
              "beadmotif algorithms.")
 
 # palette index -> (name, mass): the lattice of attributes; 4 shares a name prefix with 1
-PAL = {1: ("C", "12"), 2: ("H", "1"), 3: ("O", "16"), 4: ("CA", "12.5")}
+PAL = {1: ("C", "12"), 2: ("H", "1"), 3: ("O", "16"), 4: ("CA", "12.5"),
+       # non-dyadic masses: a floating-point sum over them depends on the order of summation
+       11: ("H", "1.008"), 12: ("C", "12.011"), 13: ("O", "15.999"), 14: ("X", "0.1"), 15: ("Y", "0.2"), 16: ("Z", "0.3"),
+       17: ("W", "0.001"), 18: ("Q", "1e16"), 19: ("U", "1")}
 
 
 # ----------------------------------------------------------------------------------------
@@ -135,6 +138,23 @@ def check_vectors(ctx, exe, vecs, origin):
         plan += [("equiv", r["equivRelabelled"]), ("equiv", r["equivRelabelled"]), ("equiv", r["equivAltered"]),
                  ("equiv", r["equivAltered"]), ("bs_single", None), ("bs_break", None), ("bs_single", None),
                  ("bs_graph", None)]
+        if "at2" in r:
+            # the same structure with non-dyadic masses: original order, relabelled + two other insertion orders
+            for slot, (a, b, c) in ((4, (vs, r["at2"], es)), (5, (r["rvs"], r["rat2"], r["res"])),
+                                    (6, (r["rvs3"], r["rat3"], list(reversed(r["res"]))))):
+                bc = _bs_build(slot, a, b, c)
+                cmds += bc
+                plan += [("ok", None)] * len(bc)
+            cmds += ["bs_equiv 4 5", "bs_equiv 5 4", "bs_equiv 4 6", "bs_equiv 6 5"]
+            plan += [("equiv2", r["equivRelabelled"])] * 4
+        if "mes" in r and (r["nloops"] or r["ndups"]):
+            cmds += [_gcmd(vs, at, r["mes"]), "decouple", "sid"]
+            plan += [("g", None), ("mdecouple", None), ("sid", 2)]
+            for row in r["dist"][:2]:
+                cmds.append("dist %d" % row["s"])
+                plan.append(("mdist", row))
+            cmds += [_gcmd(r["rvs"], r["rat"], r["mres"]), "sid"]
+            plan += [("g", None), ("sid", 3)]
         items.append((i, cmds))
         plans.append(plan)
     results, crashes = _run_parallel(exe, items)
@@ -209,6 +229,40 @@ def check_vectors(ctx, exe, vecs, origin):
                     what = "relabelled" if arg else "altered-multiset"
                     ctx.violation("isStructureEquivalent:%s:%s" % (what, shape),
                                   "isStructureEquivalent says %s for the %s copy; %s" % (got, what, _brief(r, True)), r)
+            elif kind == "equiv2":
+                if n >= 5:
+                    ctx.extra["n_nondyadic_5plus"] = ctx.extra.get("n_nondyadic_5plus", 0) + 1
+                got = lines[0].split()[1] == "1"
+                if got != arg:
+                    ctx.violation("isStructureEquivalent:relabelled:non-dyadic-mass:%s" % shape,
+                                  "isStructureEquivalent says %s for a copy that differs only in ids and insertion order "
+                                  "(masses %s); G: V=%s E=%s relabelled V=%s / V=%s" %
+                                  (got, [PAL[a][1] for a in r["at2"]], r["vs"], r["es"], r["rvs"], r["rvs3"]), r)
+            elif kind == "mdecouple":
+                mk = "self-edge" if r["nloops"] else "duplicate-edge"
+                ctx.extra["n_multigraph"] = ctx.extra.get("n_multigraph", 0) + 1
+                if r["nloops"]:
+                    ctx.extra["n_multigraph_selfedge"] = ctx.extra.get("n_multigraph_selfedge", 0) + 1
+                if any(len(p["v"]) == 1 and p["e"] for p in r["mparts"]):
+                    ctx.extra["n_multigraph_selfedge_isolated"] = ctx.extra.get("n_multigraph_selfedge_isolated", 0) + 1
+                if r["ndups"]:
+                    ctx.extra["n_multigraph_dups"] = ctx.extra.get("n_multigraph_dups", 0) + 1
+                got = []
+                for ln in [ln for ln in lines if ln.startswith("comp")]:
+                    verts, nodes, el = _graph_line(ln.replace("comp", "graph", 1))
+                    got.append((verts, frozenset(el)))
+                want = frozenset((frozenset(p["v"]), _eset(p["e"])) for p in r["mparts"])
+                if frozenset(got) != want or len(got) != len(want):
+                    ctx.violation("decouple:multigraph:%s" % mk,
+                                  "decoupleIsolatedSubGraphs gave %s, the parts (edge sets incl. self edges) are %s; V=%s edges inserted %s"
+                                  % (_fmt_parts(got), _fmt_parts(want), r["vs"], r["mes"]), r)
+            elif kind == "mdist":
+                sec = _sections(lines[0])
+                got = dict((int(t.split(":")[0]), int(t.split(":")[1])) for t in sec.get("dist", []))
+                wrong = [(v, got.get(v), d) for v, d in arg["d"] if d >= 0 and got.get(v) != d]
+                if wrong:
+                    ctx.violation("dist:label:multigraph", "with self/repeated edges GraphDistVisitor from %d gives %s, hop counts are %s; "
+                                  "V=%s edges inserted %s" % (arg["s"], got, arg["d"], r["vs"], r["mes"]), r)
             elif kind == "bs_single":
                 if n > 0 and (lines[0].split()[1] == "1") != r["single"]:
                     ctx.violation("isSingleStructure:%s" % shape, "isSingleStructure says %s, expected %s; %s"
@@ -241,6 +295,10 @@ def check_vectors(ctx, exe, vecs, origin):
                 ctx.extra.setdefault("algo_drift", [])
                 if len(ctx.extra["algo_drift"]) < 5:
                     ctx.extra["algo_drift"].append({"sid": sids[0], "graph": _brief(r)})
+        if 2 in sids and 3 in sids and sids[2] != sids[3]:
+            ctx.violation("findStructureId:relabelled:multigraph",
+                          "structure id of a graph with self/repeated edges changes under relabelling/insertion order: '%s' vs '%s'; "
+                          "V=%s edges %s relabelled V=%s edges %s" % (sids[2], sids[3], r["vs"], r["mes"], r["rvs"], r["mres"]), r)
         if 0 in sids and 1 in sids and sids[0] != sids[1]:
             ctx.violation("findStructureId:relabelled:%s" % shape,
                           "structure id changes under relabelling/insertion order: '%s' vs '%s'; %s"
@@ -569,7 +627,8 @@ def graph_traces(ctx, exe, count):
     for i in range(count):
         n = rnd.randrange(8, 13)
         vs = _rand_ids(rnd, n)
-        at = [rnd.choice([1, 1, 2, 3, 4]) for _ in vs]
+        pal = [1, 1, 2, 3, 4] if i % 2 == 0 else [11, 12, 13, 14, 15, 16, 17, 18, 19]
+        at = [rnd.choice(pal) for _ in vs]
         es = _rand_graph(rnd, vs)
         starts = rnd.sample(vs, 2)
         # relabelled, re-ordered copy
@@ -585,7 +644,7 @@ def graph_traces(ctx, exe, count):
         avs, aat = list(vs), list(at)
         if rnd.random() < 0.5:
             k = rnd.randrange(n)
-            aat[k] = aat[k] % 4 + 1
+            aat[k] = (aat[k] % 4 + 1) if aat[k] < 10 else (11 + (aat[k] - 10) % 9)
         else:
             extra = max(vs) + 1 if max(vs) < 2 ** 31 - 2 else min(set(range(n + 2)) - set(vs))
             avs.append(extra)
@@ -1205,7 +1264,8 @@ def run(ctx):
     ctx.exhaustive = False
 
     # ---- vacuity guards: the cases the newer layers are about really occurred in this run ------------
-    need = ["n_graph_copy_probe", "n_branch_proper", "n_query_on_copy", "n_probe_after_fork", "n_motif_split",
+    need = ["n_nondyadic_5plus", "n_multigraph_selfedge", "n_multigraph_selfedge_isolated", "n_multigraph_dups",
+            "n_graph_copy_probe", "n_branch_proper", "n_query_on_copy", "n_probe_after_fork", "n_motif_split",
             "n_motif_connector_edges", "n_idstring_id_collisions"]
     missing = [k for k in need if not ctx.extra.get(k)]
     if missing or set(ctx.extra.get("motif_types_seen", [])) != {"single_bead", "line", "loop", "fused_ring"}:
